@@ -27,7 +27,7 @@ theorem net_refines_c19 {C : Type} (K : Crypto C) (ord : Order) (sw rw : Nat) (o
     (hB : B ≤ 2 ^ 62) (hs : DgSmall d B ops) :
     ∃ dops : List Datagram.Op, Datagram.SmallOps dops ∧
       let σ := after K ord sw rw ops
-      let r := Datagram.run B (B + 9) dops
+      let r := Datagram.run (B + 9) (B + 9) dops
       r.snd.closed = none ∧ r.rcv.closed = none ∧
       r.accepted = σ.dgSent d ∧ r.arrived = σ.dgRcvd d ∧
       r.wire.flatMap Datagram.Pkt.payloads = dgsOf (σ.sent d) ∧
